@@ -76,7 +76,7 @@ CONFIG = dict(
     assumptions=[
         "VerifySingleTxn{User,Soft,Hard}Constraints and NewTransactionInputs return normally (error or success) - parameters of the model",
         "a panic inside a handler would be turned into a dropped connection by net/http; the harness records it directly (recover + stack)",
-        "deadline 20 s per request in-process; decimal exponents |e| <= 4000 and address counts <= 101 in generated requests",
+        "deadline 60 s per request in-process; decimal exponents |e| <= 4000 and address counts <= 101 in generated requests",
     ],
     rule="per case: fresh node; 34 verify ops (17 transaction kinds x signed flag) before and after; every route's documented request once; "
          "450 (quick) / 800 (thorough) generated requests per case over all routes of the regenerated table with per-parameter "
